@@ -7,9 +7,36 @@ Set Warnings "-unused-intro-pattern".
 Definition ev_parts (e : event) : list bmsg := match e with ERecv m _ => main m :: just m | _ => [] end.
 Definition ev_cmpfail (e : event) : bool := match e with ERecv _ CmpFail => true | _ => false end.
 
-Lemma flat_buffer_add : forall k buf m b, In b (flat (buffer_add k buf m)) -> In b (flat buf) \/ b = main m \/ In b (just m).
+Lemma In_skipn : forall {A} k (l : list A) x, In x (skipn k l) -> In x l.
 Proof.
-Admitted.
+  intros A k. induction k as [|k IH]; intros l x H; [exact H|].
+  destruct l as [|y l]; [exact H|]. right. apply IH. exact H.
+Qed.
+
+Lemma flat_msgs_In : forall ms b, In b (flat_msgs ms) <-> exists m, In m ms /\ (main m = b \/ In b (just m)).
+Proof.
+  intros ms b. unfold flat_msgs. rewrite in_flat_map. split; intros [m [Hm Hb]]; exists m; (split; [assumption|]); simpl in *; tauto.
+Qed.
+
+Lemma flat_msgs_lastn : forall k ms b, In b (flat_msgs (lastn k ms)) -> In b (flat_msgs ms).
+Proof.
+  intros k ms b H. apply flat_msgs_In in H. destruct H as [m [Hm Hb]]. apply flat_msgs_In. exists m. split; [|assumption].
+  unfold lastn in Hm. eapply In_skipn. eassumption.
+Qed.
+
+Lemma flat_buffer_add : forall k buf m b, In b (flat (buffer_add k buf m)) -> In b (flat buf) \/ main m = b \/ In b (just m).
+Proof.
+  intros k buf m b. induction buf as [|[s0 q0] buf IH]; simpl; intro H.
+  - unfold flat in H. simpl in H. rewrite app_nil_r in H. apply flat_msgs_lastn in H. simpl in H. rewrite app_nil_r in H. tauto.
+  - destruct (s0 =? src (main m)).
+    + unfold flat in H |- *. simpl in H |- *. apply in_app_or in H. destruct H as [H|H].
+      * apply flat_msgs_lastn in H. unfold flat_msgs in H. rewrite flat_map_app in H. apply in_app_or in H.
+        destruct H as [H|H]; [left; apply in_or_app; left; exact H|]. simpl in H. rewrite app_nil_r in H. tauto.
+      * left. apply in_or_app. right. exact H.
+    + unfold flat in H |- *. simpl in H |- *. apply in_app_or in H. destruct H as [H|H].
+      * left. apply in_or_app. left. exact H.
+      * destruct (IH H) as [H1|H1]; [left; apply in_or_app; right; exact H1 | right; exact H1].
+Qed.
 
 Lemma fstep_provenance : forall p s e o s' outs, fstep p s e o = Some (s', outs) ->
   (forall b, In b (flat (buffer s')) -> In b (flat (buffer s)) \/ In b (ev_parts e)) /\
@@ -20,5 +47,21 @@ Proof.
   intros p s e o s' outs H.
   destruct e; crush_fstep H; simpl; repeat split; st; intros; auto; try discriminate.
   all: try (match goal with Hb : In _ (flat (buffer_add _ _ _)) |- _ => apply flat_buffer_add in Hb; tauto end).
-  all: idtac "goal". Show 1. Show 2.
-Abort.
+  all: try (right; apply (proj1 (dedupb_In _ _)) in H; apply filter_In in H; tauto).
+  all: try (right; left; match goal with E : pick_ok _ _ _ = true |- _ => apply pick_ok_spec in E; destruct E as [_ [_ [E _]]]; apply E; assumption end).
+Qed.
+
+(* where PREPARE and COMMIT broadcasts come from *)
+Lemma fstep_origins : forall p s e o s' outs, fstep p s e o = Some (s', outs) ->
+  forall b, In b (bc_mains outs) ->
+  (ty b = Prepare -> exists m c, e = ERecv m c /\ ty (main m) = PrePrepare /\ rnd b = rnd (main m)
+                       /\ val b = val (main m) /\ justified p m (cfr s) = true) /\
+  (ty b = Commit -> qn p <= nsrc (f_trv Prepare (rnd b) (val b)) (flat (buffer s'))).
+Proof.
+  intros p s e o s' outs H b Hb.
+  destruct e; crush_fstep H; try rule_facts2; prep_facts; rewrite ?bc_mains_app in Hb; simpl in Hb; split_in; subst; simpl;
+    (split; intro Hty; try discriminate Hty).
+  all: st; try contradiction.
+  all: try (apply negb_false_iff in Heqb2; exists m, CmpOk; auto 10; fail).
+  all: rewrite <- H0; exact H1.
+Qed.
